@@ -100,15 +100,28 @@ def gen_ann(rng):
     ents = [(":" + k, rng.choice(["%d" % rng.randrange(50), '"v"', "[1 2]", "nil", ":w", "{:n 1}"])) for k in keys]
     if rng.random() < 0.2:
         ents.append(('"strkey"', "1"))
+    if rng.random() < 0.35:
+        # keys that are equal across annotations although spelled / typed differently
+        k = rng.choice(list(TWIN_KEYS))
+        ents.append((k, rng.choice(["1", ":t", "[0]"])))
     return "{%s}" % " ".join("%s %s" % e for e in ents), ents
+
+
+# spellings of equal keys -> canonical name
+TWIN_KEYS = {"[1 2]": "seq12", "(1 2)": "seq12", "[]": "seq0", "()": "seq0", "\"a\\nb\"": "str-a-nl-b", "\"a\nb\"": "str-a-nl-b",
+             "#{1 2}": "set12", "#{2 1}": "set12", "{:x 1 :y 2}": "mapxy", "{:y 2, :x 1}": "mapxy", "[(1)]": "nest1", "([1])": "nest1"}
+
+
+def canon_key(k):
+    return TWIN_KEYS.get(k, k)
 
 
 def merge_chain(anns):
     """outer annotations win; order: the outermost annotation's entries first"""
     merged = []
     for text, ents in reversed(anns):
-        newkeys = [k for k, _ in ents]
-        merged = list(ents) + [(k, v) for k, v in merged if k not in newkeys]
+        newkeys = [canon_key(k) for k, _ in ents]
+        merged = list(ents) + [(k, v) for k, v in merged if canon_key(k) not in newkeys]
     return merged
 
 
@@ -172,6 +185,25 @@ def run(tier):
         for d in (b"#:p [1]", b"#:p", b"#:{:a 1}", b"#:p/q{:a 1}", b"#: p{:a 1}", b"#:p{:a}", b"#:p{:a 1", b"#:p x", b"#::p{:a 1}"):
             scripts.append("Q r0=%s" % h(d))
             kinds.append(("reject", d, "malformed namespaced map"))
+        # a marker lacking its annotation or target at the very end of the input is an error also when the caller
+        # supplies an end-of-input value (option bit 1)
+        eofdocs = [b"^:private", b"^:a ", b"^", b"^ ", b"^{:doc \"x\"} ^:dynamic  ; trailing comment", b"^String ^:a", b"^{:a 1}", b"^[x] ^\"s\"  \n",
+                   b"[1] ^:a", b"#:p", b"#:p ", b"^:a #_ x", b"^:a ;c\n"]
+        for opt in (0, 1):
+            eo, ecr = K.run_impl(cfg, K.read_lines(eofdocs, opt))
+            em, _ = K.run_model(cfg, K.read_lines(eofdocs, opt))
+            rep.count("markers-at-eof/%s/opt%d" % (cfg, opt), len(eofdocs))
+            for d, a, b in zip(eofdocs, eo, em):
+                if a is None:
+                    continue
+                if a != b:
+                    rep.broken_obligation("correspondence/markers-at-eof", "model %r vs code %r on %r (opt %d)" % (b, a, d, opt), False)
+                if d == b"[1] ^:a":
+                    continue  # a complete form comes first: it is the result
+                if not a.startswith("err "):
+                    found = True
+                    rep.finding("accepted/marker-at-eof", "a marker without operand at the end of the input was accepted (opt %d): %r -> %s" % (opt, d, a[:80]),
+                                {"kind": "read", "config": cfg, "opt": opt, "input_hex": C.hexs(d), "observed": a[:300]})
         impl, model, diffs, crashes, mcr = K.correspond(cfg, scripts)
         rep.count("scripts/" + cfg, len(scripts))
         for idx, rc, err in crashes:
@@ -226,6 +258,10 @@ def run(tier):
 def replay(path):
     r = json.load(open(path))
     print(json.dumps(r, indent=1)[:3000])
+    if r.get("kind") == "read":
+        out = C.run_lines(C.harness("unity", r["config"], "san"), K.read_lines([bytes.fromhex(r["input_hex"])], r.get("opt", 0)))
+        print("now:", out.outputs)
+        return 0
     if r.get("kind") == "script":
         out = C.run_lines(C.harness("unity", r["config"], "san"), [r["line"]])
         print("now:", out.outputs)
